@@ -107,11 +107,16 @@ def mark_left_recursion(rules: Iterable[Rule]) -> list[Rule]:
                 if not leaders:
                     break
 
-            if not leaders:
+            if leaders:
+                # pick an arbitrary leader among the rules common to all cycles
+                leaders = {min(leaders)}
+            else:
+                # no rule lies on every cycle of the SCC:
+                # each rule must lead the cycles that go through it
                 leaders = set(scc)
 
-            leader_name = min(leaders)
-            rules[rule_index[leader_name]].is_lrec = True
+            for leader_name in leaders:
+                rules[rule_index[leader_name]].is_lrec = True
 
         elif len(scc) == 1:
             name = min(scc)
